@@ -14,7 +14,7 @@ import (
 
 func init() {
 	register("C15", propMeta{
-		Explanation:  "Decides loop guarding and lock discipline, not wall-clock numbers: (R1) every wait loop of packages sop, common, fs and cache (a `for` loop whose body, through static callees up to depth 2, sleeps) passes on every cycle a deadline check (sop.TimedOut / Transaction.timedOut / ctx.Err) whose failure edge leaves the loop through an error return, or is a counted loop with a constant bound; the wait loops are enumerated from the code and must number at least the six confirmed by hand; (R2) the deadline is min(caller's context, transaction maximum): Transaction.timedOut delegates to sop.TimedOut with t.maxTime, sop.TimedOut fails on ctx.Err() and on elapsed > maxTime, and the constructor clamps maxTime into (0, 1h]; (R3) no hold-and-wait: no L2 lock acquisition (Lock / DualLock of the in-memory and Redis services) sleeps or loops waiting - they are try-locks - and a failed node-key lock attempt in phase1Commit releases before sleeping (shared with C07.R3); (R4) a transaction that gives up releases its locks: rollback releases node-key locks on every path and item locks once they may have been taken (shared with C07.R3); (R5) locks are TTL-bounded: every Lock / DualLock call site in common and fs passes a duration that is a positive constant or the clamped t.maxTime (or a parameter fed only by such), and the in-memory Lock replaces a non-positive duration. (R6) rollback releases item locks only when committedState >= lockTrackedItems and every rollback rewinds that state, so phase1Commit logs lockTrackedItems before every (re-)acquisition of the item locks.",
+		Explanation:  "Decides loop guarding and lock discipline, not wall-clock numbers: (R1) every wait loop of packages sop, common, fs and cache (a `for` loop whose body, through static callees up to depth 2, sleeps) passes on every cycle a deadline check (sop.TimedOut / Transaction.timedOut / ctx.Err) whose failure edge leaves the loop through an error return, or is a counted loop with a constant bound; the wait loops are enumerated from the code and must number at least the six confirmed by hand; (R2) the deadline is min(caller's context, transaction maximum): Transaction.timedOut delegates to sop.TimedOut with t.maxTime, sop.TimedOut fails on ctx.Err() and on elapsed > maxTime, and the constructor clamps maxTime into (0, 1h]; (R3) no hold-and-wait: no L2 lock acquisition (Lock / DualLock of the in-memory and Redis services) sleeps or loops waiting - they are try-locks - and a failed node-key lock attempt in phase1Commit releases before sleeping (shared with C07.R3); (R4) a transaction that gives up releases its locks: rollback releases node-key locks on every path and item locks once they may have been taken (shared with C07.R3); (R5) locks are TTL-bounded: every Lock / DualLock call site in common and fs passes a duration that is a positive constant or the clamped t.maxTime (or a parameter fed only by such), and the in-memory Lock replaces a non-positive duration. (R6) rollback releases item locks only when committedState >= lockTrackedItems and every rollback rewinds that state, so phase1Commit logs lockTrackedItems before every (re-)acquisition of the item locks. (R7) in mergeNodesKeys every held node key is either carried over into the new set or released.",
 		DoesNotCover: "Actual elapsed time, scheduler behaviour and the bounded overhead after the deadline are runtime quantities; progress under contention (C04) is not decided.",
 	}, runC15)
 }
